@@ -26,7 +26,7 @@ TITLE = 'TemplateError with exact location'
 LEVEL = 'exploration'
 SHARDS = {'quick': 16, 'thorough': 16}
 FLOOR = {'quick': 150, 'thorough': 400}
-REQUIRED_MONITORS = {'M-err': 2000, 'M-tokalg': 10000, 'planted': 2000, 'valid-compiled': 1000}
+REQUIRED_MONITORS = {'M-err': 2000, 'M-tokalg': 10000, 'planted': 2000, 'valid-compiled': 1000, 'M-crash': 2000}
 RULE = ('a case = (site kind, fault kind, surroundings); surroundings randomise the number of list parts before/after, '
         '";;" escapes, entities and string literals in neighbouring parts, leading text (newlines, tabs, non-ASCII, '
         'comments, elements), tag layout (single line / attributes on separate lines), and the invalid expression itself '
@@ -284,6 +284,70 @@ def run(ctx):
         elif res is not None:
             ctx.violation('lang-%s-%s' % (lk, res[0]), 'language error %s in %r: %s' % (lk, full, res[1]),
                           {'kind': 'lang', 'src': full})
+    layer_smoke(ctx, 300 if ctx.quick else 5000)
+
+
+SMOKE_ATTRS = [
+    'tal:define="v 1"', 'tal:define="global g 2; w v|3"', 'tal:condition="c"', 'tal:repeat="i xs"', 'tal:content="t"', 'tal:replace="t"',
+    'tal:content="structure t"', 'tal:omit-tag=""', 'tal:omit-tag="c"', 'tal:attributes="title t; class c"', 'tal:attributes="d"',
+    'tal:switch="c"', 'tal:case="1"', 'tal:case="default"', 'tal:on-error="string:ERR"', 'i18n:translate=""', 'i18n:translate="mid"',
+    'i18n:name="n1"', 'i18n:name="n2"', 'i18n:domain="dom"', 'i18n:context="ctx"', 'i18n:target="\'de\'"', 'i18n:attributes="title"',
+    'metal:define-macro="m1"', 'metal:define-macro="m2"', 'metal:use-macro="template.macros[\'m1\']"',
+    'metal:use-macro="lib.macros[\'L\']"', 'metal:define-slot="s"', 'metal:fill-slot="s"', 'metal:extend-macro="lib.macros[\'L\']"',
+    'meta:interpolation="false"', 'tal:content="string:${t} $$ x"', 'tal:replace="structure t"', 'tal:define="(a, b) (1, 2)"',
+    'tal:repeat="(k, v) d.items()"', 'tal:attributes="checked c; d"', 'tal:condition="not: c"', 'tal:condition="exists: zz"',
+    'tal:content="zz | t"', 'tal:on-error="structure t"', 'i18n:translate="" tal:content="t"', 'tal:comment="note"',
+    'tal:define="x repeat.i.index|0"', 'xml:lang="en"', 'tal:attributes="class default; title None"', 'title="T ${t}"', 'class="k"',
+    'checked="${c}"',
+]
+
+
+def smoke_gen(rng, depth):
+    attrs = rng.sample(SMOKE_ATTRS, rng.choice([0, 1, 1, 2, 2, 3, 4]))
+    kids = ''
+    for _ in range(rng.randint(0, 3)):
+        kids += smoke_gen(rng, depth + 1) if depth < 3 and rng.random() < .55 else rng.choice(
+            ['txt ', '${t} ', '\n  ', '${c} x', '<!-- ${t} -->', '<![CDATA[${t}]]>', '<?python q = 1 ?>', '<!--! x -->', '$${t}',
+             '&amp;${structure: t}', '<br/>', '<input checked />'])
+    tag = rng.choice(['div', 'p', 'tal:block', 'metal:block', 'span'])
+    return '<%s %s>%s</%s>' % (tag, ' '.join(attrs), kids, tag)
+
+
+def layer_smoke(ctx, n):
+    """M-crash: random mixes of ALL statement kinds (TAL x METAL x i18n x on-error x interpolation).  Whatever the
+    mix, compilation either succeeds or raises a TemplateError - never an internal error of the compiler."""
+    from chameleon import PageTemplate
+    from chameleon.exc import TemplateError
+    rng = ctx.rng
+    for i in range(n):
+        src = smoke_gen(rng, 0)
+        ctx.mon('M-crash')
+        try:
+            PageTemplate(src)
+            res = 'compiled'
+        except TemplateError as e:
+            problem = monitors.check_template_error(e, src)
+            res = 'TemplateError'
+            if problem:
+                ctx.violation('smoke-template-error-misaligned', 'compiling %r: %s: %s' % (src[:300], type(e).__name__, problem),
+                              {'kind': 'valid', 'src': src, 'cfg': {}})
+        except RecursionError:
+            res = 'RecursionError'
+        except Exception as e:
+            res = 'crash'
+            msg = '%s: %s' % (type(e).__name__, str(e).split('\n')[0][:80])
+            key = 'compiler-crash-' + type(e).__name__
+            if isinstance(e, AttributeError) and "'_fields'" in msg and 'tal:on-error' in src and re.search(r'tal:attributes="[^"]*\bd\b', src):
+                key = 'compiler-crash-on-error-with-dictionary-attributes'
+            elif isinstance(e, AssertionError) and 'tal:case' in src and 'metal:define-macro' in src and 'tal:switch' in src:
+                key = 'compiler-crash-case-in-macro-below-switch'
+            elif isinstance(e, KeyError) and 'Undefined namespace prefix' in msg:
+                res = 'undefined-prefix'
+                key = None
+            if key:
+                ctx.violation(key, 'compiling %r raised %s' % (src[:400], msg), {'kind': 'valid', 'src': src, 'cfg': {}})
+        ctx.cover('smoke-outcome', res)
+        ctx.case(key=('smoke', res, len(src) // 40), nontrivial=True)
 
 
 def replay(data):
